@@ -6,7 +6,7 @@
    `key_ok t key` : t is one of the four FindType values; name lookups: key non-empty and not starting with '-';
                     alias lookups: key = "c" or "-c" (c <> 0, c <> '-').
    `matches c al t key` : the ids of the OPTIONS that match, by brute force over the option list (alias names count as names). *)
-Require Import V.Lib.Base V.Gen.Consts_C14 V.C14.Model V.C14.Spec V.C14.Proofs V.C14.Proofs2 V.C14.Proofs3 V.C14.Proofs4 V.C14.Proofs5 V.C14.Proofs6 V.C14.Proofs7.
+Require Import V.Lib.Base V.Gen.Consts_C14 V.C14.Model V.C14.Spec V.C14.Proofs V.C14.Proofs2 V.C14.Proofs3 V.C14.Proofs4 V.C14.Proofs5 V.C14.Proofs6 V.C14.Proofs7 V.C14.Proofs8 V.C14.Key V.C14.KeyRange.
 Local Open Scope Z_scope.
 
 (* [lower_bound k, upper_bound (k . CHAR_MAX)) of a sorted index over bytes 1..126 = exactly the entries with prefix k *)
@@ -142,6 +142,68 @@ Theorem c14_duplicates_group : forall cap os c al, built c al -> names_nonempty 
   (snd r = None -> options (fst r) = options c ++ os /\ forall k, In k (keys (fst r)) <-> In k (group_keys os) \/ In k (keys c)).
 Proof. intros cap os c al Hb. apply (add_group_thm cap os c al). apply built_inv. exact Hb. Qed.
 Print Assumptions c14_duplicates_group.
+
+(* ---- the option NUMBER stored in the index (OptionContext::key_type) ----
+   The model keeps the position of the option (a nat); the C++ index stores that position converted to key_type:
+   `key_of i` = i mod (key_max + 1), `stored_index c` = the index with every number converted; key_max is generated from the
+   typedef in program_options.h.  For every reachable context holding at most key_max + 1 options (numbers 0 .. key_max) every
+   stored number is exact, distinct options keep distinct numbers and the stored index is the model's index - generic in key_max. *)
+Theorem c14_index_numbers_exact : forall c al, built c al -> Z.of_nat (length (options c)) <= key_max + 1 ->
+  (forall k i, In (k, i) (index c) -> key_of i = Z.of_nat i) /\
+  (forall k1 i1 k2 i2, In (k1, i1) (index c) -> In (k2, i2) (index c) -> key_of i1 = key_of i2 -> i1 = i2) /\
+  stored_index c = map (fun e => (fst e, Z.of_nat (snd e))) (index c).
+Proof. exact index_exact. Qed.
+Print Assumptions c14_index_numbers_exact.
+
+(* the range is tight: the first number beyond it is stored as the number of option 0 *)
+Theorem c14_key_wraps_beyond : 0 <= key_max -> key_of (Z.to_nat (key_max + 1)) = key_of 0.
+Proof. exact key_wraps_beyond. Qed.
+Print Assumptions c14_key_wraps_beyond.
+
+(* THE OBLIGATION ON THE DECLARED TYPE: key_type holds every option number below 2^32.  Every option is at least one heap object
+   with a name string plus a map node with a string key (more than 100 bytes on the LP64 target): 2^32 options exceed 400 GiB -
+   exhaustion-of-memory scale, outside the property and outside any address space this suite can use.  A narrower key_type
+   (unsigned short) breaks this theorem; a context of 65537 options then resolves option #65536 as option #0. *)
+Theorem c14_key_range_sufficient : 2 ^ 32 - 1 <= key_max.
+Proof. exact key_range_sufficient. Qed.
+Print Assumptions c14_key_range_sufficient.
+
+Theorem c14_index_exact_below_memory_scale : forall c al, built c al -> Z.of_nat (length (options c)) <= 2 ^ 32 ->
+  (forall k i, In (k, i) (index c) -> key_of i = Z.of_nat i) /\
+  (forall k1 i1 k2 i2, In (k1, i1) (index c) -> In (k2, i2) (index c) -> key_of i1 = key_of i2 -> i1 = i2) /\
+  stored_index c = map (fun e => (fst e, Z.of_nat (snd e))) (index c).
+Proof. exact index_exact_below_memory_scale. Qed.
+Print Assumptions c14_index_exact_below_memory_scale.
+
+(* a LARGE group of generated options (case op 9: names 'o' + four base-36 digits of 0 .. n-1): the closed form the model evaluates
+   on a context without options and keys is the generic add(group) of these options - for every count -, so such a context is a
+   reachable context and all theorems above apply to it *)
+Theorem c14_generated_group : forall k c,
+  bulk_add k c = add_group bulk_caption (gen_opts (bulk_count k c)) c /\ (forall al, built c al -> built (fst (bulk_add k c)) al) /\
+  domain (fst (bulk_add k empty_ctx)) [].
+Proof. intros k c. split; [apply bulk_add_generic|split; [intros al; apply bulk_add_built|apply bulk_add_empty_domain]]. Qed.
+Print Assumptions c14_generated_group.
+
+(* non-vacuity at the magnitude in question: a reachable context of 65537 options inside the domain and inside the range of key_type;
+   option #65536 (name o1ekg) is found under its own number, by exact name and as the unique match of its prefix; with one ordinary
+   option o0000x behind the generated ones (option #65537) the prefix o0000 is AMBIGUOUS between #0 and #65537, tryFind gives end() *)
+Definition many_ctx : ctx := fst (bulk_add 65537 empty_ctx).
+Example ex_many_built : built many_ctx [] /\ domain many_ctx [] /\ Z.of_nat (length (options many_ctx)) = 65537 /\
+Z.of_nat (length (options many_ctx)) <= key_max + 1 /\ (forall k i, In (k, i) (index many_ctx) -> key_of i = Z.of_nat i).
+Proof.
+  assert (B : built many_ctx []) by (apply bulk_add_built; apply b_empty).
+  assert (L : Z.of_nat (length (options many_ctx)) = 65537) by (vm_compute; reflexivity).
+  split; [exact B|]. split; [apply bulk_add_empty_domain|]. split; [exact L|].
+  assert (R : Z.of_nat (length (options many_ctx)) <= key_max + 1) by (rewrite L; vm_compute; discriminate).
+  split; [exact R|]. exact (proj1 (index_exact many_ctx [] B R)).
+Qed.
+Example ex_many_lookup :
+  gen_name 65536 = [111; 49; 101; 107; 103] /\ enc_lookup (find (gen_name 65536) find_name many_ctx) = [0; 65536] /\
+  enc_lookup (find (gen_name 65536) find_prefix many_ctx) = [0; 65536] /\ enc_lookup (find (gen_name 0) find_name many_ctx) = [0; 0] /\
+  (let c := fst (add_group [71] [mkOpt (gen_name 0 ++ [120]) 0] many_ctx) in
+   enc_lookup (find (gen_name 0) find_prefix c) = 2 :: 2 :: enc_str (gen_name 0) ++ enc_str (gen_name 0 ++ [120]) /\
+   enc_fres (find_impl (gen_name 0) find_prefix 0 c) = [0; 2; 0; 65537] /\ try_find (gen_name 0) find_prefix c = None).
+Proof. vm_compute. repeat split; reflexivity. Qed.
 
 (* ---- non-vacuity: a context with shared prefixes, an alias and an alias name sharing a prefix with its own option ---- *)
 Definition s_number := [110;117;109;98;101;114].   (* number *)
